@@ -255,6 +255,95 @@ def big_window_digits(ctx, gname, proj, aff, f, head, w, sched, idxs, n=2):
     chk.add_executor(ex)
 
 
+def big_window_digits_anypos(ctx, gname, proj, aff, f, head, w, n=2):
+    """as big_window_digits, but the bit position is SYMBOLIC (any 0..=255, a superset of the schedule positions): one run per window
+    decides the digit extraction of every position and every control-flow class (aligned, word-straddling, bottom word) at once"""
+    chk = ctx.chk
+    log = []
+    D = models.GroupDomain(proj, aff).setup(n, proj, aff)
+
+    def h_mixed(ex, st, m, a):
+        r = a[0]
+        if r.path and r.path[-1][0] == 'i':
+            comp = a[1].path[-1][1] if isinstance(a[1], Ref) and a[1].path and a[1].path[-1][0] == 'i' else None
+            comp = comp.v if isinstance(comp, BV) and comp.concrete else comp
+            log.append((r.path[-1][1], list(st.pc), comp))
+            return UNIT
+        return NotImplemented
+
+    def h_from_elem(ex, st, m, a):
+        nb = a[1]
+        return LazySeq(nb.v, lambda i: zeros(proj, n), 'identity buckets')
+
+    def h_stop(ex, st, m, a):
+        raise CutReached(st, None, 'before-reduction')
+    pp = proj.replace('::', r'::')
+    ex = C.new_executor(ctx, D.models(), extra_models=[(r'<' + pp + r' as CurveProjective>::add_assign_mixed', h_mixed),
+                                                        (r'(std::vec::|alloc::vec::)?from_elem::<.+>', h_from_elem),
+                                                        (r'<' + pp + r' as CurveProjective>::add_assign', h_stop)])
+    ex.D = D
+    bsym = z3.BitVec('bitpos', 64)
+    for _once in (0,):
+        del log[:]
+        st = State()
+        ks, scref, ptref, width = setup_inputs(ex, st, aff, n)
+        st.pc += [z3.Extract(63, 63, k[3]) == 0 for k in ks]
+        st.pc.append(z3.ULE(bsym, z3.BitVecVal(255, 64)))
+        state = {}
+
+        def cut(ex_, st_, fr, kk):
+            if kk == 1:
+                ex_.store(st_, ex_.local_ref(fr, 'bit_sequence_index'), BV(64, False, bsym))
+                ex_.store(st_, ex_.local_ref(fr, 'num_doubles'), BV(64, False, 0))
+                state['fr'] = fr
+        ex.cuts = {(f.name, head): cut}
+        nob = len(ex.obligations)
+        try:
+            ex.call_fn(st, f, [ptref, scref, BV(64, False, w)], {})
+            raise Inconclusive('big-window run did not reach the reduction')
+        except CutReached as cr:
+            s2 = cr.st
+        ex.cuts = {}
+        fr = state['fr']
+        mb = ex.load(s2, ex.local_ref(fr, 'max_bucket'))
+        pc = z3.And(*[C.mk(p) for p in s2.pc]) if s2.pc else z3.BoolVal(True)
+        edge = z3.BitVecVal(w - 1, 64)
+        width_b = z3.If(z3.UGE(bsym, edge), z3.BitVecVal(w, 64), bsym + 1)
+        lo = bsym - width_b + 1
+        pre = '%s pippenger digits(w=%d) @ANY bit position: ' % (gname, w)
+        digs = []
+        for i in range(n):
+            k = z3.Concat(ks[i][3], ks[i][2], ks[i][1], ks[i][0])
+            sh = z3.LShR(k, z3.ZeroExt(192, lo))
+            msk = (z3.BitVecVal(1, 256) << z3.ZeroExt(192, width_b)) - 1
+            digs.append(z3.Extract(63, 0, sh & msk))
+        # each recorded update i: happens iff digit_i > 0 and targets bucket digit_i
+        if any(not isinstance(c, int) or not (0 <= c < n) for (_, _, c) in log) or set(c for (_, _, c) in log) != set(range(n)):
+            chk.ground(pre + 'every bucket update names its component', False, 'components %r' % [c for (_, _, c) in log])
+            continue
+        chk.ground(pre + 'bucket updates recorded per control-flow branch and component', True, '%d updates over %d components' % (len(log), n))
+        top = z3.And(*[z3.Extract(63, 63, k[3]) == 0 for k in ks], z3.ULE(bsym, z3.BitVecVal(255, 64)))
+        bad = []
+        for i in range(n):
+            conds = []
+            for (idx, pcs, comp) in log:
+                if comp != i:
+                    continue
+                cond = z3.And(*[C.mk(p) for p in pcs]) if pcs else z3.BoolVal(True)
+                conds.append(cond)
+                # soundness of every update: right bucket, in range, never bucket 0
+                bad.append(z3.And(cond, z3.Or(idx.z() != digs[i], z3.UGE(idx.z(), z3.BitVecVal(1 << w, 64)), digs[i] == 0)))
+            # completeness: a non-zero digit is added to its bucket on some branch
+            bad.append(z3.And(top, digs[i] != 0, z3.Not(z3.Or(*conds))))
+        chk.must_unsat(pre + 'bucket index = bits[pos-width+1..pos](k_i), < 2^w, update iff digit != 0', z3.Or(*bad), group='digit-extraction')
+        mx = digs[0]
+        for dg in digs[1:]:
+            mx = z3.If(z3.UGT(dg, mx), dg, mx)
+        chk.must_unsat(pre + 'max_bucket = max_i digit_i', z3.And(pc, mb.z() != mx), group='digit-extraction')
+        chk.must_unsat_any(pre + 'no panic / shift in range', [ob.formula() for ob in ex.obligations[nob:]])
+    chk.add_executor(ex)
+
+
 def pippenger(ctx):
     chk = ctx.chk
     tier = ctx.tier
@@ -273,6 +362,11 @@ def pippenger(ctx):
             scheds[w] = schedule(ex, f, head, proj, aff, w)
             if gname == 'G1':
                 window_arith(chk, w, scheds[w])
+        # digit extraction with a SYMBOLIC bit position: every window 1..=20, every position, both tiers
+        for w in range(1, 21):
+            big_window_digits_anypos(ctx, gname, proj, aff, f, head, w)
+        if ctx.only and 'anypos' in ctx.only and 'pip' not in ctx.only:
+            continue
         myplan = plan if gname == 'G1' else ([(3, 2)] if tier == 'quick' else [(2, 2), (4, 2), (6, 2)])
         for (w, n) in myplan:
             sched = scheds[w]
@@ -309,7 +403,7 @@ def pippenger(ctx):
         chk.extra[gname + '_schedule_lengths'] = {str(w): len(s) for w, s in scheds.items()}
         # large windows: digit extraction and index safety for every window 1..=20
         if gname == 'G1':
-            for w in ([5, 9, 13, 20] if tier == 'quick' else list(range(1, 21))):
+            for w in ([] if tier == 'quick' else list(range(1, 21))):       # concrete positions: thorough only (the symbolic-position run above subsumes them)
                 sched = scheds[w]
                 big_window_digits(ctx, gname, proj, aff, f, head, w, sched, positions_for(tier, sched, w))
 
@@ -436,11 +530,11 @@ def run(ctx):
         entry_points(ctx)
     if not only or 'precomp' in only:
         precomp_variant(ctx)
-    if not only or 'pip' in only:
+    if not only or 'pip' in only or 'anypos' in only:
         pippenger(ctx)
     chk.bounds.update({'bucket method (full step incl. reduction)': 'quick: windows 1..6 with n = 2 or 3 points at the first/last/word-straddling positions; '
                        'thorough: windows 1..8 (n<=3 for w<=6, n=2 for w=7,8) at every position',
-                       'digit extraction + index safety': 'quick: windows 7,9,12,16,20; thorough: every window 1..=20; every schedule position in thorough',
+                       'digit extraction + index safety': 'every window 1..=20 with a SYMBOLIC bit position 0..=255 (both tiers); thorough repeats it at every concrete schedule position',
                        'scalars': 'all values of the 4x64 limb bits with bit 255 clear', 'outside': 'bucket reduction for windows 9..=20 and n > 3'})
     chk.assumptions += ['curve operations act as an abelian group on exponent vectors over formal generators (C01); repeated / inverse / identity points are '
                         'linear substitutions into the proved linear form', 'induction over window positions: invariant res = sum_i (k_i >> (b+1)) e_i, buckets = O']
